@@ -1609,7 +1609,10 @@ class _GroupElem(ABC):
 
         assert isinstance(line, Line)
 
-        idx = np.where(line.Contains(self.coord, 1e-12))[0]
+        # tolerance relative to the size of the coordinates (round-off of a node of an oblique line is ~ 1e-16 |coord|)
+        coord = self.coord
+        tol = 1e-12 * max(1.0, float(np.max(np.abs(coord))) if coord.size else 1.0)
+        idx = np.where(line.Contains(coord, tol))[0]
         return self.__nodes[idx].copy()
 
     def Get_Nodes_Domain(self, domain: "Domain") -> _types.IntArray:
